@@ -1,5 +1,6 @@
 import Octo.Drv.OpsCodec
 import Octo.Drv.C16
+import Octo.Drv.C19
 /-! C15 driver: the operator models on one op line, and the property oracle — `valid_out` and
     `net_commutes` against the batch specifications of `Octo.Model.OpSpec` — evaluated on what the
     real nodes emitted. -/
@@ -10,6 +11,8 @@ def model (toks : List String) : String :=
   match toks with
   | "gb" :: _ => Octo.Drv.C16.model toks      -- the group-by node under COUNTING / WATERMARK triggers (shared with C16)
   | "sgb" :: _ => Octo.Drv.C16.model toks
+  | "sj" :: _ => Octo.Drv.C19.model toks     -- stream / outer join under a chosen interleaving (shared with C19)
+  | "oj" :: _ => Octo.Drv.C19.model toks
   | _ => Octo.Drv.Ops.model toks
 
 def totalV (e : Expr) (x : Row) : Value :=
@@ -122,6 +125,8 @@ def judge (toks : List String) (out : List String) : String :=
   match toks with
   | "gb" :: _ => Octo.Drv.C16.judge toks out
   | "sgb" :: _ => Octo.Drv.C16.judge toks out
+  | "sj" :: _ => Octo.Drv.C19.judge toks out
+  | "oj" :: _ => Octo.Drv.C19.judge toks out
   | _ => judgeOps toks out
 
 end Octo.Drv.C15
